@@ -37,6 +37,7 @@ type provenance struct {
 
 type C11 struct {
 	nTickDiff int
+	nRoundTrip, nTooLongRefused int
 	prov       map[uint64]*provenance
 	checked    map[uint64]bool
 	messages   map[string]uint64
@@ -95,6 +96,81 @@ func (m *C11) OnBlock(e *Env, blk *world.BlockRecord) {
 			return
 		}
 	}
+	// round trip of the payload encoders on boundary-family contents: every signal id the chain accepts (1..32 bytes) with any
+	// price encodes, and the payload decodes back to the same ids, values and time; a longer id cannot be represented and is refused
+	for i := 0; i < 2; i++ {
+		n := 1 + e.Ch.Intn("c11.rt.n", 3)
+		var ps []feedstypes.Price
+		tooLong := false
+		for j := 0; j < n; j++ {
+			l := []int{1, 10, 31, 32, 32, 33}[e.Ch.Intn("c11.rt.idlen", 6)]
+			id := strings.Repeat(string(rune('A'+j)), l)
+			if l > 32 {
+				tooLong = true
+			}
+			pr := []uint64{0, 1, 1<<64 - 1, e.Ch.U64("c11.rt.price")}[e.Ch.Intn("c11.rt.pricek", 4)]
+			ps = append(ps, feedstypes.Price{Status: feedstypes.PRICE_STATUS_AVAILABLE, SignalID: id, Price: pr, Timestamp: 1})
+		}
+		ts := int64(e.Ch.Intn("c11.rt.ts", 1<<30))
+		seq := e.Ch.U64("c11.rt.seq")
+		for _, enc := range []feedstypes.Encoder{feedstypes.ENCODER_FIXED_POINT_ABI, feedstypes.ENCODER_TICK_ABI} {
+			for _, kind := range []string{"feeds", "tunnel"} {
+				var out []byte
+				var err error
+				if kind == "feeds" {
+					out, err = feedstypes.EncodeTSS(ps, ts, enc)
+				} else {
+					out, err = tunneltypes.EncodeTSS(seq, ps, ts, enc)
+				}
+				m.nRoundTrip++
+				if tooLong {
+					if err == nil {
+						e.Fail("C11", "encoder_round_trip", "too_long_accepted", "%s payload with a signal id longer than 32 bytes encodes: %v", kind, ps)
+						return
+					}
+					continue
+				}
+				if err != nil || len(out) < 4 {
+					e.Fail("C11", "encoder_round_trip", "refused", "%s payload (encoder %v) of %v cannot be encoded: %v", kind, enc, ps, err)
+					return
+				}
+				var got []ref.RelayPrice
+				var gotTs int64
+				var derr error
+				if kind == "feeds" {
+					got, gotTs, derr = ref.DecodeFeedsPrices(out[4:])
+				} else {
+					var gotSeq uint64
+					gotSeq, got, gotTs, derr = ref.DecodeTunnelPacket(out[4:])
+					if derr == nil && gotSeq != seq {
+						derr = fmt.Errorf("sequence %d decodes as %d", seq, gotSeq)
+					}
+				}
+				if derr == nil && (gotTs != ts || len(got) != len(ps)) {
+					derr = fmt.Errorf("time %d / %d prices decode as time %d / %d prices", ts, len(ps), gotTs, len(got))
+				}
+				for j := 0; derr == nil && j < len(ps); j++ {
+					if got[j].SignalID != ps[j].SignalID {
+						derr = fmt.Errorf("signal id %q decodes as %q", ps[j].SignalID, got[j].SignalID)
+					} else if enc == feedstypes.ENCODER_FIXED_POINT_ABI && got[j].Value != ps[j].Price {
+						derr = fmt.Errorf("price %d decodes as %d", ps[j].Price, got[j].Value)
+					} else if enc == feedstypes.ENCODER_TICK_ABI {
+						if ps[j].Price == 0 && got[j].Value != 0 {
+							derr = fmt.Errorf("price 0 encodes as tick value %d", got[j].Value)
+						} else if ps[j].Price != 0 {
+							if ok, conclusive := ref.TickBracket(ps[j].Price, got[j].Value); conclusive && !ok {
+								derr = fmt.Errorf("price %d encodes as tick value %d, not the largest tick whose price does not exceed it", ps[j].Price, got[j].Value)
+							}
+						}
+					}
+				}
+				if derr != nil {
+					e.Fail("C11", "encoder_round_trip", kind, "%s payload (encoder %v) of %v: %v", kind, enc, ps, derr)
+					return
+				}
+			}
+		}
+	}
 	now := blk.Time.Unix()
 	bind := func(bandtssID uint64, p *provenance) {
 		bs, err := bk.GetSigning(ctx, bandtsstypes.SigningID(bandtssID))
@@ -120,6 +196,20 @@ func (m *C11) OnBlock(e *Env, blk *world.BlockRecord) {
 				if internal && !infraReject(tx) {
 					m.nInternalRejected++
 					e.St.Trace("internal-content-rejected")
+				}
+				if meta.Content == "feeds" && tx.Result.Codespace == feedstypes.ModuleName && tx.Result.Code == feedstypes.ErrInvalidSignal.ABCICode() {
+					// "this signal id cannot be encoded" is a legitimate refusal only for ids longer than the 32 bytes of the payload's field
+					long := false
+					for _, id := range meta.SignalIDs {
+						if len(id) > 32 {
+							long = true
+						}
+					}
+					if !long {
+						e.Fail("C11", "encodable_order_refused", "", "feeds signature order for %q (all ids at most 32 bytes) refused: %s", meta.SignalIDs, firstLine(tx.Result.Log))
+						return
+					}
+					m.nTooLongRefused++
 				}
 				continue
 			}
@@ -404,6 +494,8 @@ func (m *C11) NonTrivial(e *Env) bool {
 	e.St.ProbeN("c11_signings_checked", m.nChecked)
 	e.St.ProbeN("c11_tick_encodings_checked", m.nTick)
 	e.St.ProbeN("c11_tick_differential_draws", m.nTickDiff)
+	e.St.ProbeN("c11_encoder_round_trips", m.nRoundTrip)
+	e.St.ProbeN("c11_order_with_too_long_signal_id_refused", m.nTooLongRefused)
 	e.St.ProbeN("c11_tick_inconclusive", m.nTickInconclusive)
 	e.St.ProbeN("c11_internal_content_rejected", m.nInternalRejected)
 	for _, k := range sortedKeysInt(m.kinds) {
